@@ -684,71 +684,119 @@ func runC04(c *core.Ctx) core.Meta {
 				litConst, _ = constant.Int64Val(k.Val())
 			}
 		}
-		litOperand := func(x, y ssa.Value) string { // "Src0" for `inst.Src0.OperandType <op> LiteralConstant`
+		// "Src0" for `inst.Src0.OperandType <op> LiteralConstant`; an operand passed to an inlined helper
+		// (`operand.OperandType` with operand a parameter) is resolved through the call sites of the frame chain
+		opNameRe := regexp.MustCompile(`\.(\w+)$`)
+		litOperand := func(n *core.Node, x, y ssa.Value) string {
 			k, isC := core.ConstInt(y)
 			if !isC || k != litConst {
 				return ""
 			}
-			m := regexp.MustCompile(`\.(\w+)\.OperandType$`).FindStringSubmatch(prov.Of(x))
+			ld, ok := x.(*ssa.UnOp)
+			if !ok || ld.Op != token.MUL {
+				return ""
+			}
+			fa, ok := ld.X.(*ssa.FieldAddr)
+			if !ok {
+				return ""
+			}
+			if f := core.FieldOfAddr(fa); f == nil || f.Name() != "OperandType" {
+				return ""
+			}
+			base := fa.X
+			fr := n.Frame
+			for fr != nil && fr.Parent != nil && fr.CallSite != nil {
+				prm, isP := base.(*ssa.Parameter)
+				if !isP {
+					break
+				}
+				idx := -1
+				for i, q := range fr.Fn.Params {
+					if q == prm {
+						idx = i
+					}
+				}
+				call, isCall := fr.CallSite.Instr.(*ssa.Call)
+				if idx < 0 || !isCall || idx >= len(call.Call.Args) {
+					break
+				}
+				base = call.Call.Args[idx]
+				fr = fr.Parent
+			}
+			m := opNameRe.FindStringSubmatch(prov.Of(base))
 			if m == nil {
 				return ""
 			}
 			return m[1]
 		}
+		samePkg := func(callee *ssa.Function) bool { return callee.Pkg == pi.Pkg }
+		incFuncs := map[*ssa.Function]bool{}
+		pi.Instrs(func(fn *ssa.Function, in ssa.Instruction) {
+			if st, ok := storeToField(in, "Inst.ByteSize"); ok && strings.HasSuffix(prov.Of(st.Val), ".ByteSize+4)") {
+				incFuncs[fn] = true
+			}
+		})
 		for _, fn := range pi.Funcs {
 			type inc struct {
 				n  *core.Node
 				op string
 			}
 			var incs []inc
-			var g *core.Graph
+			hasInc := false
 			for _, b := range fn.Blocks {
 				for _, in := range b.Instrs {
-					st, ok := storeToField(in, "Inst.ByteSize")
-					if !ok || !strings.HasSuffix(prov.Of(st.Val), ".ByteSize+4)") {
-						continue
-					}
-					if g == nil {
-						g = core.BuildGraph(fn, 0, nil)
-					}
-					// which operand's literal test leads here?
-					for _, n := range g.Nodes {
-						if n.Instr != in {
-							continue
+					if cc := core.CallOf(in); cc != nil {
+						if callee := cc.StaticCallee(); callee != nil && callee.Pkg == pi.Pkg && incFuncs[callee] {
+							hasInc = true
 						}
-						for _, operand := range []string{"Src0", "Src1", "Src2"} {
-							operand := operand
-							if g.Guarded(n, CmpCut(func(_ *core.Node, op token.Token, x, y ssa.Value) int {
-								if litOperand(x, y) != operand {
-									return 0
-								}
-								switch op {
-								case token.EQL:
-									return 1
-								case token.NEQ:
-									return -1
-								}
-								return 0
-							})) {
-								incs = append(incs, inc{n, operand})
+					}
+					if st, ok := storeToField(in, "Inst.ByteSize"); ok && strings.HasSuffix(prov.Of(st.Val), ".ByteSize+4)") {
+						hasInc = true
+					}
+				}
+			}
+			if !hasInc {
+				continue
+			}
+			// helpers that account for a literal are expanded at their call sites
+			g := core.BuildGraph(fn, 2, samePkg)
+			for _, n := range g.Nodes {
+				st, ok := storeToField(n.Instr, "Inst.ByteSize")
+				if !ok || !strings.HasSuffix(prov.Of(st.Val), ".ByteSize+4)") {
+					continue
+				}
+				// which operand's literal test leads here?
+				for _, operand := range []string{"Src0", "Src1", "Src2"} {
+					operand := operand
+					if g.Guarded(n, CmpCut(func(cn *core.Node, op token.Token, x, y ssa.Value) int {
+						if litOperand(cn, x, y) != operand {
+							return 0
+						}
+						switch op {
+						case token.EQL:
+							return 1
+						case token.NEQ:
+							return -1
+						}
+						return 0
+					})) {
+						incs = append(incs, inc{n, operand})
+						break
+					}
+				}
+				// a size step for a constant that is part of the opcode (v_madak / v_madmk K): its block fills a LiteralConstant
+				found := false
+				for _, x := range incs {
+					if x.n == n {
+						found = true
+					}
+				}
+				if !found {
+					for _, i2 := range n.Block.Instrs {
+						if st2, ok := i2.(*ssa.Store); ok {
+							if f2 := core.FieldOfAddr(st2.Addr); f2 != nil && f2.Name() == "LiteralConstant" {
+								incs = append(incs, inc{n, "K"})
 								break
-							}
-						}
-						// a size step for a constant that is part of the opcode (v_madak / v_madmk K): its block fills a LiteralConstant
-						found := false
-						for _, x := range incs {
-							if x.n == n {
-								found = true
-							}
-						}
-						if !found {
-							for _, i2 := range n.Block.Instrs {
-								if st2, ok := i2.(*ssa.Store); ok {
-									if f2 := core.FieldOfAddr(st2.Addr); f2 != nil && f2.Name() == "LiteralConstant" {
-										incs = append(incs, inc{n, "K"})
-										break
-									}
-								}
 							}
 						}
 					}
@@ -765,8 +813,8 @@ func runC04(c *core.Ctx) core.Meta {
 					}
 					st5.Instances++
 					aop := a.op
-					okOnce := g.Guarded(b.n, CmpCut(func(_ *core.Node, op token.Token, x, y ssa.Value) int {
-						if litOperand(x, y) != aop {
+					okOnce := g.Guarded(b.n, CmpCut(func(cn *core.Node, op token.Token, x, y ssa.Value) int {
+						if litOperand(cn, x, y) != aop {
 							return 0
 						}
 						switch op {
@@ -1328,6 +1376,8 @@ func runC04(c *core.Ctx) core.Meta {
 	checkTableWidths(c, t)
 	checkVOP3bMembership(c, t)
 	checkDstRegisterFile(c, t)
+	checkVOP3PModifiers(c, t)
+	checkModifierFlags(c)
 	checkFlatOpcodes(c, t)
 	checkDSOperands(c, t)
 	checkFieldCoverage(c, core.NewLocalProv(c))
